@@ -192,25 +192,56 @@ def step (ds : DState) (line : String) : DState × String :=
         "|".intercalate (hopChain rcfg (wdialect (ds.get dn)) hasD (h + 1) 0 cur []) ++ "\t" ++
           "|".intercalate (hopSpec rcfg hasD h cur)
       | _, _ => "bad-op")
-  | ["fix", dn, key, f] =>
+  | "fix" :: dn :: key :: f :: _ =>
     (ds, match keyOf key, decFrame f with
       | some k, some fr =>
-        (match fixFrame H (wdialect (ds.get dn)) k fr with
-        | .ok f' => "ok:" ++ encFrame f'
+        let wd := wdialect (ds.get dn)
+        (match fixFrame H wd k fr with
+        | .ok f' =>
+          let next (oracle : Bool) : String := match frameWrite wd f' with
+            | .error e => "W" ++ encWErr e
+            | .ok (bs, _) =>
+              let rcfg : RCfg := { H := H, key := k, dialect := rdialect (ds.get dn), specWindow := oracle }
+              match readOne rcfg {} (bytesToItems bs) with
+              | (.frame g, _, _) => "F" ++ maskCrc true g
+              | (r, _, _) => encRRes r
+          -- SPEC: the next hop delivers the frame with the same header fields and the canonical form of the edited message
+          let spec : String := match fr.msg, ds.get dn with
+            | .dec id vals, some l => (match l.find? (·.id == id) with
+              | some m => (match Msg.encode m.rw fr.isV2 vals with
+                | .ok p => (match Msg.decode m.rw fr.isV2 p with
+                  | .ok cv => "F" ++ maskCrc true (f'.setMsg (.dec id cv))
+                  | _ => "-")
+                | _ => "-")
+              | none => "-")
+            | _, _ => "-"
+          "ok:" ++ encFrame f' ++ "|" ++ next false ++ "\t" ++ (if spec == "-" then "-" else "ok:" ++ encFrame f' ++ "|" ++ spec)
         | .error .nilDialect => "err:nil-dialect" | .error .notInDialect => "err:not-in-dialect" | .error .panic => "err:panic")
       | _, _ => "bad-op")
-  | ["tlogw", dn, ep, f] =>
+  | "tlogw" :: dn :: ep :: f :: rest =>
     (ds, match ep.toInt?, decFrame f with
       | some e, some fr =>
-        (match Tlog.writeEntry (wdialect (ds.get dn)) e fr with
-        | .wrote cs => "wrote:" ++ ",".intercalate (cs.map toHex)
-        | .failed cs e => "failed:" ++ ",".intercalate (cs.map toHex) ++ ":" ++ encWErr e)
+        let failAt : Option Nat := match rest with | [k] => k.toNat? | _ => none
+        let wd := wdialect (ds.get ((dn.splitOn "@").headD dn))
+        let enc (o : Tlog.WOut) : String := match o with
+          | .wrote bs => "wrote:" ++ toHex bs
+          | .failed _ (.transport k) => s!"failed:*:tr{k}"
+          | .failed bs e => "failed:" ++ (if bs.isEmpty then "" else toHex bs) ++ ":" ++ encWErr e
+        -- SPEC: a file is a concatenation of [8-byte BE microsecond timestamp][frame]; an entry that cannot be encoded
+        -- leaves no bytes; a transport failure is reported
+        let spec : String := match frameWrite wd fr with
+          | .error e => "failed::" ++ encWErr e
+          | .ok (bs, _) => (match failAt with
+            | some k => if k ≤ 1 then s!"failed:*:tr{k}" else "wrote:" ++ toHex (be64 (Int64.ofInt e).toUInt64 ++ bs)
+            | none => "wrote:" ++ toHex (be64 (Int64.ofInt e).toUInt64 ++ bs))
+        enc (Tlog.writeEntry wd e fr failAt) ++ "\t" ++ spec
       | _, _ => "bad-op")
   | "tlogr" :: dn :: stream :: _ =>
     (ds, match decStream stream with
       | some s =>
         let cfg : RCfg := { H := H, key := none, dialect := rdialect (ds.get dn) }
-        " ".intercalate (tlogReadAll cfg (s.length + 2) s [])
+        " ".intercalate (tlogReadAll cfg (s.length + 2) s []) ++ "\t" ++
+          " ".intercalate (tlogReadAll { cfg with specWindow := true } (s.length + 2) s [])
       | none => "bad-op")
   | ["msgenc", dn, id, ver, vals] =>
     (ds, match id.toNat?, decVals vals, ds.get dn with
